@@ -272,3 +272,249 @@ Definition run_greedy (x : sx) : sx :=
           end
       | _, _, _, _ => sx_bad end
   | _ => sx_bad end.
+
+(* ====================================================================================================
+   Additions (repair of audit defects 3, 9, 10).  Nothing above this line was changed.
+   ==================================================================================================== *)
+
+(* ---------------- prefixes of the loop, and the loop with an ARBITRARY deterministic tie-break ---------------- *)
+Section Pick.
+Variable n_genes : nat.
+Variable pairs : list nat.
+Variable marks : nat -> slot -> bool.
+Variable n : nat.
+
+(* the choices made so far, the loop not required to have stopped (a prefix of a legal trace) *)
+Fixpoint steps (st : state) (trace : list nat) : option state :=
+  match trace with
+  | [] => Some st
+  | g :: t => match step n_genes pairs marks n st g with Some st' => steps st' t | None => None end
+  end.
+
+(* What a tie-breaking rule may look at.  One entry per call of _update_been_filled so far (the
+   first pass, before the desperate phase, included):
+     - was sorted_utility_idx recomputed in that call (`len(newly_full[0]) > 0 or ... is None`),
+     - the utility array after that call (as a list over the genes of the thinned array),
+     - marker_gene_name_list at that call;
+   plus marker_gene_name_list now.  np.argsort(utility_array) - whatever its order among equal
+   values - followed by pops of the possibly stale list is a function of exactly this (pick_pop). *)
+Definition hentry := (bool * list Z * list nat)%type.
+Definition pick_fn := list hentry -> list nat -> option nat.
+Definition snapshot (st : state) : list Z := map (utility st) (genes n_genes).
+(* st = the state BEFORE the call of _update_been_filled that is being recorded *)
+Definition observe (st : state) (hist : list hentry) : list hentry :=
+  hist ++ [(existsb (newly n_genes marks n st) (slots pairs),
+            snapshot (update_filled n_genes pairs marks n st), chosen st)].
+
+Inductive wres :=
+| WDone (st : state)        (* `break` *)
+| WIllegal (g : nat)        (* the rule named a gene that is not an unchosen gene of maximal utility *)
+| WStuck                    (* the rule named no gene *)
+| WOutOfFuel.
+
+(* `while True` with the gene of every iteration named by `pick`; every choice is checked by `step`
+   (unchosen, a gene, of maximal utility), so a WDone result is the result of a legal run *)
+Fixpoint run_with (pick : pick_fn) (fuel : nat) (hist : list hentry) (st : state) : wres :=
+  match fuel with
+  | O => WOutOfFuel
+  | S f =>
+      let hist1 := observe st hist in
+      let st1 := update_filled n_genes pairs marks n st in
+      if finished n_genes pairs st1 then WDone st1
+      else match pick hist1 (chosen st1) with
+           | None => WStuck
+           | Some g => match step n_genes pairs marks n st g with
+                       | Some st' => run_with pick f hist1 st'
+                       | None => WIllegal g
+                       end
+           end
+  end.
+
+(* the first call of _update_been_filled (sorted_utility_idx is None: it sorts) *)
+Definition hist0_sorted : list hentry :=
+  [(true, snapshot (update_filled n_genes pairs marks n (init pairs marks)), [])].
+(* the whole of _run_selection with the rule `pick`; fuel n_genes + 1 always suffices *)
+Definition select_with (pick : pick_fn) : wres :=
+  run_with pick (S n_genes) hist0_sorted (start n_genes pairs marks n).
+End Pick.
+
+Definition last_opt {A} (l : list A) : option A :=
+  match rev l with [] => None | x :: _ => Some x end.
+
+(* three rules.  (1) the model's `greedy`: the first unchosen gene of maximal utility *)
+Definition pick_first_max : pick_fn := fun hist ch =>
+  match last_opt hist with
+  | None => None
+  | Some (_, u, _) =>
+      let m := fold_right Z.max (-1)%Z u in
+      find (fun g => negb (nmem g ch) && (nth g u (-1)%Z =? m)%Z) (seq 0 (length u))
+  end.
+(* (2) a recorded choice sequence (nd = number of desperate genes) *)
+Definition pick_of_trace (nd : nat) (trace : list nat) : pick_fn := fun _ ch =>
+  nth_error trace (length ch - nd).
+(* (3) what _choose_one_gene(chosen_idx=None) does: sorted_utility_idx.pop(-1), the list being
+   list(np.argsort(u)) for the array u of the LAST call of _update_been_filled that recomputed it,
+   minus the genes taken since (popped by the loop, or removed by the desperate phase).  A list
+   recomputed inside the loop holds every gene again, those already in marker_gene_name_list
+   included.  `sorter` = np.argsort: ANY function of the array. *)
+Definition pick_pop (sorter : list Z -> list nat) : pick_fn := fun hist ch =>
+  match find (fun e : hentry => fst (fst e)) (rev hist) with
+  | None => None
+  | Some (_, u, ch0) => last_opt (filter (fun g => negb (nmem g ch && negb (nmem g ch0))) (sorter u))
+  end.
+(* np.argsort given as a finite table (array, result) - how the harness hands the real numpy
+   results to the extracted model *)
+Fixpoint listZ_eqb (a b : list Z) : bool :=
+  match a, b with
+  | [], [] => true
+  | x :: a', y :: b' => (x =? y)%Z && listZ_eqb a' b'
+  | _, _ => false
+  end.
+Definition table_sorter (tbl : list (list Z * list nat)) (u : list Z) : list nat :=
+  match find (fun e => listZ_eqb (fst e) u) tbl with Some e => snd e | None => [] end.
+
+(* ---------------- MarkerGeneArray.downsample_pairs_to_other ---------------- *)
+(* the by-pair content (indices[indptr[i]:indptr[i+1]], down and up) of the pair registered under
+   the key pr in taxonomy_pair_to_idx; None = RuntimeError of _idx_of_pair *)
+Fixpoint tables_of_pair (pr : node * node) (l : list ((node * node) * (list nat * list nat)))
+  : option (list nat * list nat) :=
+  match l with
+  | [] => None
+  | e :: t => if pair_eqb pr (fst e) then Some (snd e) else tables_of_pair pr t
+  end.
+(* the new array: same genes; pair number k is only_keep_pairs[k] (new lookup of
+   _create_new_pair_lookup; only_keep_pairs = leaves_to_compare(parent) has no repetition) with the
+   rows downsample_indptr copies for it *)
+Definition downsample_pairs (rm : refmarkers) (keep : list (node * node)) : option refmarkers :=
+  match opt_all (map (fun pr => option_map (fun tb => (pr, tb)) (tables_of_pair pr (rm_pairs rm))) keep) with
+  | None => None
+  | Some ps => Some {| rm_genes := rm_genes rm; rm_pairs := ps |}
+  end.
+
+(* ---------------- select_all_markers / _marker_selection_worker, one parent ---------------- *)
+Definition parent_eqb (a b : option (nat * node)) : bool :=
+  match a, b with
+  | None, None => true
+  | Some (i, x), Some (j, y) => Nat.eqb i j && (x =? y)%Z
+  | _, _ => false
+  end.
+(* this_n_per: n_per_utility_override[chosen_parent] if the parent is a key, else n_per_utility *)
+Definition n_per_for (default : nat) (override : list (option (nat * node) * nat))
+                     (parent : option (nat * node)) : nat :=
+  match find (fun e => parent_eqb (fst e) parent) override with
+  | Some e => snd e
+  | None => default
+  end.
+
+Inductive parent_res :=
+| PSkip                     (* len(leaves) == 0: output_dict[parent] = [] without any selection *)
+| PRun (ng : nat) (r : wres)   (* select_marker_genes_v2 ran on an array of ng genes *)
+| PErrOverlap               (* RuntimeError: No gene overlap between reference and query set *)
+| PErrPair.                 (* RuntimeError: not a valid taxonomy pair specification *)
+
+(* MarkerGeneArray.from_cache_path(query_gene_names) [raises on an empty overlap, before any parent is
+   looked at], leaves_to_compare, the short-circuit, spawn_copy (behemoth) or
+   downsample_pairs_to_other, _get_taxonomy_idx (np.sort in BOTH cases), _run_selection *)
+Definition select_parent (pick : pick_fn) (rm : refmarkers) (query : list Z) (t : tree)
+                         (parent : option (nat * node)) (behemoth : bool) (n : nat) : parent_res :=
+  match keep_idx rm query with
+  | [] => PErrOverlap
+  | _ :: _ =>
+      let rm' := thin_genes rm query in
+      match leaf_pairs t parent with
+      | [] => PSkip
+      | _ :: _ =>
+          match (if behemoth then Some rm' else downsample_pairs rm' (leaf_pairs t parent)) with
+          | None => PErrPair
+          | Some arr =>
+              match parent_idx arr t parent true with
+              | None => PErrPair
+              | Some idx => PRun (length (rm_genes arr))
+                                 (select_with (length (rm_genes arr)) idx (marks_of (pair_tables arr)) n pick)
+              end
+          end
+      end
+  end.
+
+(* ---------------- wire (dispatch.d/c12_downsample.txt) ---------------- *)
+Definition of_refmarkers (rm : refmarkers) : sx :=
+  L [of_LZ (rm_genes rm);
+     of_list (fun e => L [of_pair of_Z of_Z (fst e); of_pair of_Lnat of_Lnat (snd e)]) (rm_pairs rm)].
+(* tag 1260: (refmarkers query tree parent) -> the array handed to the worker of a NON-behemoth parent
+   (thinned to the query genes, then downsampled to leaves_to_compare(parent)) and _get_taxonomy_idx on it *)
+Definition run_downsample (x : sx) : sx :=
+  match x with
+  | L [a; b; c; d] =>
+      match sx_refmarkers a, sx_LZ b, sx_tree c, sx_parent d with
+      | Some rm, Some q, Some t, Some p =>
+          match downsample_pairs (thin_genes rm q) (leaf_pairs t p) with
+          | None => sx_err 1
+          | Some arr => match parent_idx arr t p true with
+                        | None => sx_err 2
+                        | Some idx => sx_ok (L [of_refmarkers arr; of_Lnat idx])
+                        end
+          end
+      | _, _, _, _ => sx_bad end
+  | _ => sx_bad end.
+
+Definition of_wres (r : wres) : sx :=
+  match r with
+  | WDone st => sx_ok (of_Lnat (chosen st))
+  | WIllegal g => L [I 1%Z; I 1%Z; of_nat g]
+  | WStuck => sx_err 2
+  | WOutOfFuel => sx_err 3
+  end.
+Definition of_parent_res (r : parent_res) : sx :=
+  match r with
+  | PSkip => L [I 0%Z; L []]
+  | PRun ng w => L [I 1%Z; of_nat ng; of_wres w]
+  | PErrOverlap => L [I 2%Z; L []]
+  | PErrPair => L [I 3%Z; L []]
+  end.
+Definition sx_override : sx -> option (list (option (nat * node) * nat)) := sx_list (sx_pair sx_parent sx_nat).
+(* tag 1261: (refmarkers query tree parent behemoth default override nd observed) -> select_parent with
+   this_n_per = n_per_for default override parent and the recorded choices as the rule *)
+Definition run_select_parent (x : sx) : sx :=
+  match x with
+  | L [a; b; c; d; e; f; g; h; i] =>
+      match sx_refmarkers a, sx_LZ b, sx_tree c, sx_parent d, sx_bool e, sx_nat f, sx_override g, sx_nat h, sx_Lnat i with
+      | Some rm, Some q, Some t, Some p, Some bh, Some dflt, Some ov, Some nd, Some obs =>
+          L [of_nat (n_per_for dflt ov p);
+             of_parent_res (select_parent (pick_of_trace nd (skipn nd obs)) rm q t p bh (n_per_for dflt ov p))]
+      | _, _, _, _, _, _, _, _, _ => sx_bad end
+  | _ => sx_bad end.
+
+Definition of_hentry (e : hentry) : sx := L [of_bool (fst (fst e)); of_LZ (snd (fst e)); of_Lnat (snd e)].
+(* the history a rule has seen when a legal trace ends *)
+Fixpoint hist_along (n_genes : nat) (pairs : list nat) (marks : nat -> slot -> bool) (n : nat)
+                    (hist : list hentry) (st : state) (trace : list nat) : option (list hentry) :=
+  match trace with
+  | [] => Some (observe n_genes pairs marks n st hist)
+  | g :: t => match step n_genes pairs marks n st g with
+              | Some st' => hist_along n_genes pairs marks n (observe n_genes pairs marks n st hist) st' t
+              | None => None
+              end
+  end.
+(* tag 1262: (n_genes pd idx n observed) -> the history (flag, utility array, chosen) along the recorded run *)
+Definition run_history (x : sx) : sx :=
+  match x with
+  | L [a; b; e; c; d] =>
+      match sx_nat a, sx_pd b, sx_Lnat e, sx_nat c, sx_Lnat d with
+      | Some ng, Some pd, Some ps, Some n, Some obs =>
+          let m := marks_of pd in
+          let st0 := start ng ps m n in
+          match hist_along ng ps m n (hist0_sorted ng ps m n) st0 (skipn (length (chosen st0)) obs) with
+          | Some h => sx_ok (of_list of_hentry h)
+          | None => sx_err 1
+          end
+      | _, _, _, _, _ => sx_bad end
+  | _ => sx_bad end.
+(* tag 1263: (n_genes pd idx n table) -> _run_selection with the rule pick_pop (np.argsort given as a table) *)
+Definition run_select_pop (x : sx) : sx :=
+  match x with
+  | L [a; b; e; c; d] =>
+      match sx_nat a, sx_pd b, sx_Lnat e, sx_nat c, sx_list (sx_pair sx_LZ sx_Lnat) d with
+      | Some ng, Some pd, Some ps, Some n, Some tbl =>
+          of_wres (select_with ng ps (marks_of pd) n (pick_pop (table_sorter tbl)))
+      | _, _, _, _, _ => sx_bad end
+  | _ => sx_bad end.
